@@ -25,6 +25,8 @@ func listGo(dir string) ([]string, error) {
 }
 
 // extraFacts / writeExtra: hooks for property-specific facts added later.
-func extraFacts() {}
+func extraFacts() {
+	c19Facts() // C19 write-set extractor (c19.go): writeSites / writeSetInfo in .facts.json
+}
 
 func writeExtra(b *strings.Builder) {}
